@@ -701,7 +701,7 @@ func (x *Exec) script(st *State, goal string) string {
 			if !x.globalSet[name] {
 				continue
 			}
-			if strings.HasPrefix(key, "E|") {
+			if strings.HasPrefix(key, "E|") || strings.HasPrefix(key, "MV|") {
 				sb.WriteString(fmt.Sprintf("(assert (forall ((qa Int) (qi Int)) (! (select alloc0 (select (select %s qa) qi)) :pattern ((select (select %s qa) qi)))))\n", name, name))
 			} else if strings.HasPrefix(key, "F|") {
 				sb.WriteString(fmt.Sprintf("(assert (forall ((qp Int)) (! (select alloc0 (select %s qp)) :pattern ((select %s qp)))))\n", name, name))
